@@ -831,6 +831,8 @@ class PathCtx:
         self.pc_size = 0
         self.deadline = None
         self.frontier_depth = None
+        self.decided = {}  # z3 ast id -> (ast kept alive, truth value on this path)
+        self.conc = {}  # z3 ast id -> (ast, concretised value on this path)
 
     # -- solver helpers
     def _check(self, *extra):
@@ -865,14 +867,19 @@ class PathCtx:
         if self.deadline is not None and time.monotonic() > self.deadline:
             raise PathTimeout()
 
-    def branch(self, z):
+    def branch(self, z, use_cache=True):
         """Decide a symbolic condition; returns the Python bool taken on this path."""
+        zid = z.get_id()
+        hit = self.decided.get(zid) if use_cache else None
+        if hit is not None:
+            return hit[1]
         self._tick()
         if self.pos < len(self.prefix):
             d = self.prefix[self.pos]
             self.pos += 1
             self.solver.add(z if d.taken else z3.Not(z))
             self.decisions.append(d)
+            self.decided[zid] = (z, d.taken)
             if self.pos == len(self.prefix):
                 self.model = None
             return d.taken
@@ -892,6 +899,7 @@ class PathCtx:
             self.unknowns += 1
         self.solver.add(z if v else nz)
         self.decisions.append(Decision(v, r == z3.sat, None, alt_model))
+        self.decided[zid] = (z, v)
         return v
 
     def assume(self, z):
@@ -930,6 +938,9 @@ class PathCtx:
                 return float(x.k)
             return int(x.k) if x.isint else float(x.k)
         z = x.z3()
+        hit = self.conc.get(z.get_id())
+        if hit is not None:
+            return hit[1]
         while True:
             if self.pos < len(self.prefix):
                 v = self.prefix[self.pos].aux
@@ -939,9 +950,10 @@ class PathCtx:
                 v = _val(mv)
             zv = _zconst(_frac(v), z.sort() == z3.RealSort())
             before = len(self.decisions)
-            t = self.branch(z == zv)
+            t = self.branch(z == zv, use_cache=False)
             self.decisions[before].aux = v
             if t:
+                self.conc[z.get_id()] = (z, (float(v) if isinstance(v, Fraction) else (v if x.isint else float(v))))
                 if len(x.co) == 1 and x.k == 0:
                     (a, w), = x.co.items()
                     if w == 1:
